@@ -414,7 +414,7 @@ def run(ck, replay=None):
     # fold the many observations of one defect family into few replay files: vlib dedups by signature
     shutil.rmtree(tmp, ignore_errors=True)
     ck.exhaustive = False
-    ck.assume("timeouts: only 'Timeout earlier than the requested limit' refutes; elapsed measured on std::time::Instant started before the call")
+    ck.assume("timeouts: only 'Timeout earlier than the requested limit' refutes; elapsed measured on std::time::Instant (CLOCK_MONOTONIC) started before the call and read after it returned, so measured >= waited; a relative ppoll timeout never expires early (hrtimer)")
     ck.assume("'completes when the peer acts' is refuted only by state: harness poll shows the awaited readiness, /proc/<tid>/syscall shows the thread inside ppoll, call sequence number unchanged over 5 samples")
     ck.assume("interrupted waits: a case counts only when the SIGUSR1 handler ran while /proc/<tid>/syscall showed the worker inside ppoll (or sysmon's log shows the injected -EINTR); 'before the peer acted' is judged by the harness's own order of actions")
     ck.assume("a time-limited call may only wait in a system call that carries its limit: refuted by the thread being inside read/recvfrom/accept4/connect/write on a descriptor whose F_GETFL lacks O_NONBLOCK, limit + 1 s passed, same call over 5 samples; a stream's blocking mode alone is recorded, not judged")
@@ -422,7 +422,7 @@ def run(ck, replay=None):
     ck.assume("fd passing: expected output is an independent walk of control[0..msg_controllen] as the kernel left it; control buffers start at every alignment (sub-slices at offsets 0..7), canary bytes around them and the msg_control/msg_controllen pair are checked before and after recvmsg")
     ck.assume("blocking connect returning EAGAIN/EALREADY while a backlog is full is recorded as an observation, not judged")
     return ("seeded transfers (transport x payload 0..8MiB x writer/reader chunk class x think-time x connect/accept/close order x write|write_all x read|read_exact|read_to_end, "
-            "two threads and two processes, debug and release) with a position-dependent byte pattern checked at the receiver; *_with_timeout limits {0,1ms,50ms,1.1s,+seeded}; "
+            "two threads and two processes, debug and release) with a position-dependent byte pattern checked at the receiver; *_with_timeout limits {0,1ms,50ms,1.1s,+seeded} in parallel and limits that are not whole milliseconds {137us,900us,999.999us,1.7ms,2.345678ms,2.999ms,10.5ms,10.999999ms, seeded sub-ms / n ms+0.6..1 ms / any ns up to 25 ms, 1 s + sub-ms rest} one call at a time; "
             "SIGUSR1 (1 or 2..6, seeded offsets) into a worker parked in ppoll for accept/accept_with_timeout/connect/connect_with_timeout/read/read_with_timeout/write, peer acting afterwards or never (timed); "
             "every try_* variant in pending / not-pending / queue-full situations between sysmon markers; SCM_RIGHTS cases n in 0..253 x control size CMSG_SPACE(n)-{8,4,0}+{0,4,8,64} x fill {0xFF,0x00,stale header} x "
             "buffer placement {exact heap (ASan), PROT_NONE guard page, stack, sub-slice at start offset 0..7 with canaries / ending at the allocation end / ending at a guard page} x msghdr on stack|heap x SO_PASSCRED, compared with a reference walk of the same bytes and fstat identity; Miri on hand-built buffers; "
